@@ -53,7 +53,7 @@ mod verif_replay_tls_coalesced_mod {
     }
 
     /// returns the number of bitmap events delivered within `wait` after the server wrote `writes` (each element = one TLS write) and went silent
-    fn run(writes: Vec<Vec<u8>>, pause: Duration, wait: Duration) -> Option<usize> {
+    fn run(writes: Vec<Vec<u8>>, pause: Duration, wait: Duration, expected: usize) -> Option<usize> {
         let (client_sock, server_sock) = UnixStream::pair().ok()?;
         let fd = client_sock.as_raw_fd() as usize;
         let (done_tx, done_rx) = channel::<()>();
@@ -78,7 +78,7 @@ mod verif_replay_tls_coalesced_mod {
         loop {
             let now = std::time::Instant::now();
             if now >= deadline { break }
-            match rx.recv_timeout(deadline - now) { Ok(_) => { n += 1; if n >= 2 { break } }, Err(_) => break }
+            match rx.recv_timeout(deadline - now) { Ok(_) => { n += 1; if n >= expected { break } }, Err(_) => break }
         }
         sync.store(false, Ordering::Relaxed);
         let _ = done_tx.send(());
@@ -89,13 +89,18 @@ mod verif_replay_tls_coalesced_mod {
     #[test]
     fn verif_replay_tls_coalesced() {
         // control: two PDUs in two TLS records with a pause between them must both arrive; otherwise the replay itself does not work here and proves nothing
-        match run(vec![bitmap_pdu(1), bitmap_pdu(2)], Duration::from_millis(300), Duration::from_secs(6)) {
+        match run(vec![bitmap_pdu(1), bitmap_pdu(2)], Duration::from_millis(300), Duration::from_secs(6), 2) {
             Some(2) => (),
             other => { println!("replay infrastructure not usable here ({:?}): no verdict", other); return }
         }
         // the same two PDUs written as ONE TLS record, then silence: both are at the client, both must be dispatched
         let mut both = bitmap_pdu(1); both.extend_from_slice(&bitmap_pdu(2));
-        let n = run(vec![both], Duration::from_millis(0), Duration::from_secs(6)).unwrap_or(2);
+        let n = run(vec![both], Duration::from_millis(0), Duration::from_secs(6), 2).unwrap_or(2);
         assert_eq!(n, 2, "the server sent two PDUs in one TLS record and went silent: {} of 2 were dispatched within 6 s", n);
+        // a burst: 100 PDUs in one TLS record (3.3 KB), then silence
+        let mut burst = vec![];
+        for i in 0..100u8 { burst.extend_from_slice(&bitmap_pdu(i)); }
+        let n = run(vec![burst], Duration::from_millis(0), Duration::from_secs(6), 100).unwrap_or(100);
+        assert_eq!(n, 100, "the server sent 100 PDUs in one TLS record and went silent: {} of 100 were dispatched within 6 s", n);
     }
 }
